@@ -441,6 +441,10 @@ class World(object):
         self.keep = [self.font]     # BaseObject.__del__ unregisters observers: keep everything alive
         self.stats = {}
         self.cbviol = []
+        # shadow content: what the in-memory edits made so far amount to by plain dict semantics, starting from what the
+        # font held when the first of them came (None = not known: nothing edited since the last open / reload)
+        self.sg = None
+        self.sk = None
         if preview:
             self.keep.append(_Preview(self.font, self))
         self.tmp = None
@@ -481,13 +485,79 @@ class World(object):
             raise ValueError("external edit without a UFO")
         _write_plist(os.path.join(self.path, "kerning.plist"), _nest(kerning))
 
+    EDITS = ("gset", "gdel", "gclear", "gupdate", "kset", "kdel", "kclear", "kupdate")
+
     def do(self, op):
+        k = op[0]
+        if k in self.EDITS:
+            # the contents the edit starts from - read only when they are loaded already (a peek: the harness must not
+            # be the one that triggers, or fails, the lazy load); the first edit of a freshly opened font is judged
+            # against the font's own contents
+            if self.font._groups is not None and self.font._kerning is not None:
+                if self.sg is None:
+                    self.sg = dict((n, list(ms)) for n, ms in self.font._groups.items())
+                if self.sk is None:
+                    self.sk = dict(self.font._kerning.items())
+            else:
+                self.sg = self.sk = None
         try:
-            return self._do(op)
+            out = self._do(op)
         except (ValueError,):
             raise
         except Exception as e:
+            if k in self.EDITS and not isinstance(e, KeyError):
+                self.sg = self.sk = None
             return [Atom("err"), Atom(type(e).__name__)]
+        if k == "open":
+            self.sg = self.sk = None
+        elif k == "reloadgroups":
+            # what a reload has to install is what the UFO holds, read here with ufoLib alone (not through defcon)
+            self.sg = self._disk("readGroups")
+            if self.sg is not None and self.sk is None and self.font._kerning is not None:
+                self.sk = dict(self.font._kerning.items())
+        elif k == "reloadkerning":
+            self.sk = self._disk("readKerning")
+            if self.sk is not None and self.sg is None and self.font._groups is not None:
+                self.sg = dict((n, list(ms)) for n, ms in self.font._groups.items())
+        elif k in self.EDITS:
+            if self.sg is not None and self.sk is not None:
+                self._shadow(op)
+            else:
+                self.sg = self.sk = None
+        return out
+
+    def _disk(self, what):
+        from fontTools.ufoLib import UFOReader
+        try:
+            reader = UFOReader(self.path, validate=True)
+            try:
+                data = getattr(reader, what)(validate=True)
+            finally:
+                reader.close()
+        except Exception:
+            return None
+        if what == "readGroups":
+            return dict((n, list(ms)) for n, ms in data.items())
+        return dict(data)
+
+    def _shadow(self, op):
+        k = op[0]
+        if k == "gset":
+            self.sg[op[1]] = list(op[2])
+        elif k == "gdel":
+            del self.sg[op[1]]
+        elif k == "gclear":
+            self.sg.clear()
+        elif k == "gupdate":
+            self.sg.update(dict((n, list(ms)) for n, ms in op[1]))
+        elif k == "kset":
+            self.sk[(op[1], op[2])] = op[3]
+        elif k == "kdel":
+            del self.sk[(op[1], op[2])]
+        elif k == "kclear":
+            self.sk.clear()
+        elif k == "kupdate":
+            self.sk.update(dict(((a, b), v) for a, b, v in op[1]))
 
     def _int(self, v):
         if isinstance(v, bool) or not isinstance(v, int):
@@ -662,8 +732,12 @@ def check_step(w, ops, i, out, stats):
     if k not in LOOKUPS or (isinstance(out, list) and out and out[0] == "err"):
         return None
     f = w.font
-    groups = dict((n, list(ms)) for n, ms in f.groups.items())
-    kerning = dict(f.kerning.items())
+    # judged against what the edits made so far amount to (an edit that was silently dropped must not hide itself by
+    # also being absent from the contents the font reports); the font's own contents where nothing was edited
+    shadow = w.sg is not None and w.sk is not None
+    groups = dict((n, list(ms)) for n, ms in (w.sg if shadow else f.groups).items())
+    kerning = dict((w.sk if shadow else f.kerning).items())
+    stats["oracle.shadow" if shadow else "oracle.font-contents"] = stats.get("oracle.shadow" if shadow else "oracle.font-contents", 0) + 1
     if not rules_hold(groups):
         stats["oracle.skipped-rules-broken"] = stats.get("oracle.skipped-rules-broken", 0) + 1
         return None
